@@ -20,9 +20,11 @@ W == 16
 Verdict(o) ==
   LET re == o.mut.reeval_differs
       cr == o.mut.crosseval_differs
-      good == ~re /\ ~cr /\ ~IsFailure(o.out)
+      kp == Has(o.mut, "kept_result_changed") /\ o.mut.kept_result_changed     \* the returned collection, kept by the caller, was overwritten by a later evaluation
+      good == ~re /\ ~cr /\ ~kp /\ ~IsFailure(o.out)
   IN [id |-> o.id, ok |-> good,
       sig |-> IF good THEN "" ELSE IF IsFailure(o.out) THEN "repeat|" \o o.out.k
+              ELSE IF kp /\ ~re /\ ~cr THEN "repeat|returned-collection-overwritten-by-a-later-evaluation"
               ELSE "repeat|compiled-expression-reused|" \o (IF re THEN "same-inputs-again-differs" ELSE "") \o (IF re /\ cr THEN "+" ELSE "") \o (IF cr THEN "other-inputs-differ-from-fresh-compile" ELSE ""),
       want |-> "the same outcome whatever was evaluated before"]
 
